@@ -136,6 +136,39 @@ def check(ctx):
                 k = rng.randrange(0, 4)
                 m2 = [rng.randrange(1, 256) for _ in range(k)] + [0] + [rng.randrange(1, 256) for _ in range(n + 1)] + m   # dest string of length k with room for n + NUL
                 lines.append("Str strncat %s 0 %d %d %d" % (fmt(m2), k + 1 + n + 1 + a, n, rng.randrange(8)))
+    # lengths around and beyond the 8- and 16-bit boundaries (counters that do not fit a byte / 16 bits): strings and blocks of
+    # 255..300 and 65535..70000 bytes
+    for N, reps in ((300, 3), (600, 2), (70010, 1)):
+        for fn in ALLFN:
+            if N > 1000 and fn not in ("memcpy", "memmove", "memset"): continue     # the other definitions recurse per byte in TLC
+            for _ in range(reps if ctx.thorough or N < 1000 else 1):
+                big = N - rng.choice([1, 2, 5, 44])            # length of the long string / block
+                m = [rng.choice([97, 65, 255, 122, 1 + rng.randrange(255)]) for _ in range(N)]
+                m[-1] = 0
+                half = N // 2
+                if fn in TWOSTR or fn in TWOSTRN or fn in ("strcpy", "strncpy", "strlcpy", "strcat", "strncat", "memcpy", "memmove", "memcmp", "strtok", "strtok_r"):
+                    m[half - 1] = 0                             # two strings / blocks of about N/2
+                    a, b, n = 0, half, rng.choice([half - 1, half - 2, 255, 256, 257, min(65535, half - 1), min(65536, half - 1)])
+                    if fn in ("strcat", "strncat"):
+                        m[10] = 0                               # short destination string with room behind it
+                    if fn in ("strtok", "strtok_r"):
+                        m[half:half + 3] = [32, 44, 0]; b = half
+                        for j in range(0, half - 1, 37): m[j] = 32
+                    if fn in ("memcpy", "memmove", "memcmp"): n = min(n, half - 1)
+                    if fn in ("strcmp", "strncmp", "strcasecmp", "strncasecmp", "memcmp") and rng.random() < 0.7:
+                        m[half:half + half - 1] = m[0:half - 1]; m[N - 1] = 0
+                        if rng.random() < 0.5: m[half + half - 3] = 66
+                    if fn in ("strstr", "strcasestr", "strspn", "strcspn", "strpbrk"):
+                        m[half:half + 4] = [m[half - 3], m[half - 2], 0, 0] if fn in ("strstr", "strcasestr") else [33, 0, 0, 0]; 
+                else:
+                    a, b, n = rng.choice([0, 1, 3]), rng.choice([0, m[N // 3], 255, 0x141]), rng.choice([big, 255, 256, 257, min(65535, big), min(65536, big)])
+                    if fn in ("memchr", "memrchr", "memset"): n = min(n, N - a)
+                c = None
+                try:
+                    c = (a, b, n)
+                    lines.append("Str %s %s %d %d %d %d" % (fn, fmt(m), c[0], c[1], c[2], rng.randrange(8)))
+                except Exception:
+                    pass
     # long aligned / misaligned block copies and moves with every relative alignment
     for fn in ("memcpy", "memmove", "memset", "memcmp"):
         for da in range(8):
